@@ -13,6 +13,9 @@ type (
 		objectsHead *signalListTuple
 		objectsTail *signalListTuple
 		id          int // debugging only
+
+		// the object whose change raised the signal
+		raisedBy string
 	}
 
 	// signalListTuple connects a waiting client to a queue the client's signal is in; the
@@ -181,6 +184,19 @@ func (wt *waitTable) unlinkWakeSignal(ws *wakeSignal) {
 // Cleans up a client wake signal.
 func (wt *waitTable) disposeWakeSignal(ws *wakeSignal) {
 	wt.unlinkWakeSignal(ws)
+
+	// the client may have been woken but leaves without having looked at
+	// the object (a timeout or an unblock won the race); in that case the
+	// wake-up belongs to the next client waiting for the object
+	pending := false
+	select {
+	case <-ws.ready:
+		pending = true
+	default:
+	}
+	if pending {
+		wt.unblock(ws.raisedBy, 1)
+	}
 	close(ws.ready)
 }
 
@@ -197,6 +213,7 @@ func (wt *waitTable) unblock(name string, elements int) {
 			}
 			ws := ref.signal
 			wt.unlinkWakeSignal(ws)
+			ws.raisedBy = name
 			ws.ready <- struct{}{}
 		}
 	}
